@@ -48,6 +48,17 @@ LOGGABLE = ["add_request_event", "pickup_request_event", "dropoff_request_event"
 @st.composite
 def st_case(draw) -> Dict[str, Any]:
     w = draw(st_world(PROFILE))
+    # request ids are free text and may come round again (a second day of the same demand file, a client numbering per hour): in a
+    # third of the worlds some later rows re-use the id of a row whose request has long left (departure + timeout + 3 steps earlier)
+    if draw(st.sampled_from([False, False, True])):
+        gap = w["sim"]["request_cancel_time_seconds"] + 3 * w["sim"]["timestep_duration_seconds"]
+        last_use: Dict[str, int] = {}
+        for j, r in enumerate(w["requests"]):
+            old = [i for i, t_ in sorted(last_use.items()) if r["t"] > t_ + gap and not i.startswith("m")]
+            if old and j % 2 == 0 and not r["id"].startswith("m"):
+                r["id"] = old[0]
+                w["reused_request_ids"] = True
+            last_use[r["id"]] = r["t"]
     # which report types the user wants in event.log is configuration (log_sim_config in .hive.yaml; default: all)
     if draw(st.sampled_from([False, False, True])):
         w["log_types"] = sorted(draw(st.sets(st.sampled_from(LOGGABLE), min_size=1)) | draw(st.sampled_from([set(), {"station_load_event"}])))
